@@ -274,7 +274,8 @@ func c18PostHashAppends(p *Prog) *RuleResult {
 			continue
 		}
 		// the joiner handed to a helper of the module: its appends count, under the caller's
-		// conditions at the call site plus the helper's own
+		// conditions at the call site plus the helper's own (closures that capture the joiner are
+		// handled below)
 		callee := c.Call.StaticCallee()
 		if callee == nil || !p.InModule(callee) || len(callee.Blocks) == 0 {
 			continue
@@ -297,6 +298,42 @@ func c18PostHashAppends(p *Prog) *RuleResult {
 					if strings.Contains(n2, "helpers.Joiner).") && !isJoinerRead(n2) {
 						record(c2, outer, p.Pos(c2.Pos()))
 					}
+				}
+			}
+		}
+	}
+	// local closures that capture the joiner
+	for _, rf := range *cell.Referrers() {
+		mc, ok := rf.(*ssa.MakeClosure)
+		if !ok {
+			continue
+		}
+		cf := mc.Fn.(*ssa.Function)
+		var fv *ssa.FreeVar
+		for i, bnd := range mc.Bindings {
+			if bnd == ssa.Value(cell) && i < len(cf.FreeVars) {
+				fv = cf.FreeVars[i]
+			}
+		}
+		if fv == nil || fv.Referrers() == nil {
+			continue
+		}
+		// conditions under which the closure is invoked
+		outer := map[string]bool{}
+		if mc.Referrers() != nil {
+			for _, mr := range *mc.Referrers() {
+				if call, ok := mr.(*ssa.Call); ok && call.Call.Value == ssa.Value(mc) {
+					for _, ifi := range controlDepIfsTransitive(call.Block()) {
+						optionFieldsIn(ifi.Cond, outer)
+					}
+				}
+			}
+		}
+		for _, fr := range *fv.Referrers() {
+			if c2, ok := fr.(*ssa.Call); ok && len(c2.Call.Args) > 0 && c2.Call.Args[0] == ssa.Value(fv) {
+				n2 := calleeFullName(c2)
+				if strings.Contains(n2, "helpers.Joiner).") && !isJoinerRead(n2) {
+					record(c2, outer, p.Pos(c2.Pos()))
 				}
 			}
 		}
